@@ -84,8 +84,8 @@ def task(prop, seed, size, cfgbins, which='avx2'):
 
 def tasks(prop, tier, seed, bins):
     out = []
-    size = 24 if tier == 'quick' else 800
-    nt = 2 if tier == 'quick' else 8
+    size = 24 if tier == 'quick' else 3000
+    nt = 2 if tier == 'quick' else 16
     for label, path in bins:
         be = label.split('-')[0]
         if be in ('simd', 'avx512'):
